@@ -19,7 +19,9 @@ PY_FULL = "/venv/bin/python"
 class TaskSpec:
     """A proof task re-creatable in a worker process: module:factory(*args)."""
     def __init__(self, name, module, factory, args=(), replay_kind=None, timeout_ms=12000,
-                 minimize=(), python=PY_NATIVE):
+                 minimize=(), python=PY_NATIVE, scenario=False):
+        # scenario=True: the replay kind is a native scenario oracle that needs no counter-model (asyncio handlers on fake streams)
+        self.scenario = scenario
         self.name, self.module, self.factory, self.args = name, module, factory, tuple(args)
         self.replay_kind, self.timeout_ms, self.minimize, self.python = replay_kind, timeout_ms, minimize, python
 
@@ -40,15 +42,25 @@ def native_replay(kind, witness, python=PY_NATIVE, timeout=60):
         return {"reproduced": False, "detail": "replay harness produced no result", "stderr": p.stderr[-2000:]}
 
 
+_SCENARIO_CACHE = {}
+
+
 def confirm(ob, spec):
     """Decide a non-discharged obligation: native replay of the candidate
     counter-model first; otherwise a complete (MBQI) solver run."""
     import z3
     out = {"replay": None, "full_solver": None}
     w = ob.witness
+    if w is None and getattr(spec, "scenario", False):
+        w = {"small": True}
     if w is not None and spec.replay_kind and not w.get("too_large") and "witness_error" not in w:
         kind = w.get("replay_kind", spec.replay_kind)
-        r = native_replay(kind, w, spec.python)
+        key = (kind, json.dumps(w, sort_keys=True, default=str), spec.python)
+        if getattr(spec, "scenario", False) and key in _SCENARIO_CACHE:
+            r = _SCENARIO_CACHE[key]
+        else:
+            r = native_replay(kind, w, spec.python)
+            _SCENARIO_CACHE[key] = r
         out["replay"] = r
         if r.get("reproduced"):
             ob.verdict = "refuted"
